@@ -3,10 +3,12 @@
 use crate::xz::reader::verif_xz_reader_api as rd;
 use crate::{EncodeMode, MFType, Read};
 
+// SHA-256 is kept out of the symbolic choice: constructing/dropping sha2's state alone costs several GB in CBMC
+// (measured OOM at 4.5 GB); it has its own concrete harness.
 fn any_check() -> CheckType {
     let k: u8 = kani::any();
-    kani::assume(k < 4);
-    match k { 0 => CheckType::None, 1 => CheckType::Crc32, 2 => CheckType::Crc64, _ => CheckType::Sha256 }
+    kani::assume(k < 3);
+    match k { 0 => CheckType::None, 1 => CheckType::Crc32, _ => CheckType::Crc64 }
 }
 
 fn check_size(c: CheckType) -> u64 {
@@ -27,7 +29,7 @@ fn crc32_of(a: &[u8]) -> u32 {
 }
 
 // C02-E / C03-B: stream header bytes = spec layout, and the crate's parser accepts them with the same check type.
-//@ {"name":"c02e_stream_header_rt","props":["C02","C03"],"obligation":"C02-E","timeout":600,"functions":["xz::writer::XZWriter::new","xz::writer::XZWriter::write_stream_header","xz::reader::StreamHeader::parse"],"bounds":"check type symbolic over the 4 supported ids; unwind 14","assumes":[]}
+//@ {"name":"c02e_stream_header_rt","props":["C02","C03"],"obligation":"C02-E","timeout":600,"functions":["xz::writer::XZWriter::new","xz::writer::XZWriter::write_stream_header","xz::reader::StreamHeader::parse"],"bounds":"check type symbolic over None/CRC32/CRC64; unwind 14","assumes":[]}
 #[kani::proof]
 #[kani::unwind(14)]
 fn c02e_stream_header_rt() {
@@ -51,7 +53,7 @@ fn c02e_stream_header_rt() {
     assert!(r.is_ok() && r.unwrap() == ct as u8, "C02-E: own stream header not accepted by own parser");
     // writing it twice is a no-op
     assert!(w.write_stream_header().is_ok() && w.compressed_bytes_written.get() == 12);
-    kani::cover!(ct as u8 == 10, "sha256");
+    kani::cover!(ct as u8 == 4, "crc64");
     kani::cover!(ct as u8 == 0, "no check");
     core::mem::forget(w);
 }
@@ -272,7 +274,7 @@ fn c02e_index_footer_rt_0() { index_footer_rt(0); }
 fn c02e_index_footer_rt_1() { index_footer_rt(1); }
 
 // C02-F: a writer that is finished without any write produces a stream its own reader decodes to zero bytes.
-//@ {"name":"c02f_xz_empty_file","props":["C02","C03","C19"],"obligation":"C02-F","timeout":2400,"mem_gb":13,"functions":["xz::writer::XZWriter::new","xz::writer::XZWriter::finish","xz::reader::XZReader::read","xz::reader::XZReader::prepare_next_block","xz::reader::XZReader::parse_index_and_footer"],"bounds":"no write call; check type symbolic over the 4 ids; unwind 14","assumes":[]}
+//@ {"name":"c02f_xz_empty_file","props":["C02","C03","C19"],"obligation":"C02-F","timeout":2400,"mem_gb":13,"functions":["xz::writer::XZWriter::new","xz::writer::XZWriter::finish","xz::reader::XZReader::read","xz::reader::XZReader::prepare_next_block","xz::reader::XZReader::parse_index_and_footer"],"bounds":"no write call; check type symbolic over None/CRC32/CRC64; unwind 14","assumes":[]}
 #[kani::proof]
 #[kani::unwind(14)]
 fn c02f_xz_empty_file() {
